@@ -30,7 +30,7 @@ ASSUMPTIONS = [
 ]
 
 HIST = gen.GenCfg(min_steps=2, max_steps=10, max_exchanges=2, max_holders=2, bulk_prob=0.08, fiat_columns=True, big_lots=True, fiat_only_out_fee=True)
-FLAVOURS = ("mixed", "mixed", "income_only", "buy_only", "fully_sold", "transfer_heavy", "disposal_years", "dust_on_big_lot")
+FLAVOURS = ("mixed", "mixed", "income_only", "buy_only", "fully_sold", "transfer_heavy", "disposal_years", "dust_on_big_lot", "tied_fills")
 
 
 def budget(tier: str) -> Dict[str, Any]:
